@@ -1,7 +1,8 @@
 (* C01 - The best alignment is a partition of the continuum's units.
    Property theorems only; proofs are in theories/Align/{PartProofs,OptProofs,CandProofs}.v. *)
-From Coq Require Import List Arith ZArith.
+From Coq Require Import String List Arith ZArith.
 From PGA Require Import Align.Tuples Align.Cover Align.Inst Align.PartProofs Align.CandProofs Align.OptProofs.
+From PGAprops Require Import IlpGen.
 Import ListNotations.
 
 (* every candidate offered to the solver is well-formed: one slot per annotator, in range, at least one real unit *)
@@ -46,3 +47,27 @@ Example C01_example :
   is_partitionb [2; 0; 1] [[0; 0; 0]; [1; 0; 1]] = true /\ is_partitionb [2; 0; 1] [[0; 0; 0]; [0; 0; 1]] = false /\
   is_partitionb [2; 0; 1] [[0; 0; 0]; [1; 0; 1]; [2; 0; 1]] = false.
 Proof. vm_compute. repeat split. Qed.
+
+(* ---------------------------------------------------------------------------------------------------------------------------------
+   Tie to the source (re-proved on every run against genprops/IlpGen.v, read from the CURRENT continuum.py / numba_utils.py by harness/gen_ilp.py):
+   the program get_best_alignment hands to the solver is the one the theorems above are about - 0/1 variables, objective disorders . x,
+   A x = 1 (primary) or 1 <= A x <= 1 (fallback, C01_glpk_formulation), A built by build_A (C01_rows_spec), integer solvers in both branches,
+   x > 0.9 read as "selected" (C01_selection_from_candidates), index == size decoded as the empty unit. *)
+Theorem C01_src_program :
+  best_ilp_src =
+  [("guard"%string, "len(self.annotators) >= 2 and self"%string);
+   ("candidates"%string, "dissimilarity.valid_alignments(self)"%string);
+   ("matrix"%string, "build_A(possible_unitary_alignments, sizes)"%string);
+   ("variable"%string, "cp.Variable(shape=(n,), boolean=True)"%string);
+   ("primary"%string, "import cylp; cp.Problem(cp.Minimize(disorders.T @ x), [A @ x == 1]).solve(solver=cp.CBC)"%string);
+   ("fallback_when"%string, "(ImportError, cp.SolverError)"%string);
+   ("fallback"%string, "matmul = A @ x; cp.Problem(cp.Minimize(disorders.T @ x), [1 <= matmul, matmul <= 1]).solve(solver=cp.GLPK_MI)"%string);
+   ("decode"%string, "np.where(x.value > 0.9)"%string);
+   ("chosen"%string, "possible_unitary_alignments[chosen_alignments_ids] | disorders[chosen_alignments_ids]"%string);
+   ("units"%string, "u_align_tuple = []; for annotator_id, unit_id in enumerate(alignment): annotator, units = self._annotations.peekitem(annotator_id) try: unit = units[unit_id] u_align_tuple.append((annotator, unit)) except IndexError: u_align_tuple.append((annotator, None)); unitary_alignment = UnitaryAlignment(list(u_align_tuple)); unitary_alignment.disorder = alignments_disorders[alignment_id]; set_unitary_alignements.append(unitary_alignment)"%string);
+   ("result"%string, "return Alignment(set_unitary_alignements, continuum=self, check_validity=False, disorder=np.sum(alignments_disorders) / self.avg_num_annotations_per_annotator)"%string);
+   ("order"%string, "Assert; sizes; For; (disorders, possible_unitary_alignments); n; A; x; Try; Assert; (chosen_alignments_ids,); chosen_alignments; alignments_disorders; ImportFrom; set_unitary_alignements; For; Return"%string)].
+Proof. reflexivity. Qed.
+Theorem C01_src_build_A :
+  build_A_src = "nb_units = np.sum(sizes); n = len(possible_unitary_alignments); A = np.zeros((nb_units, n), dtype=np.float32); for p_id, unit_ids_tuple in enumerate(possible_unitary_alignments): annotator_units_start = 0 for annotator_id, unit_id in enumerate(unit_ids_tuple): if unit_id != sizes[annotator_id]: A[annotator_units_start + unit_id, p_id] = 1 annotator_units_start += sizes[annotator_id]; return A"%string.
+Proof. reflexivity. Qed.
